@@ -1,4 +1,5 @@
 import Iauthd.Proto.Holds
+import Iauthd.Proto.Deliver
 import Iauthd.Proto.Settle03H
 /-
   Property C03 — "No stuck clients: the verdict comes as soon as it can" (model part).
@@ -82,10 +83,7 @@ theorem C03_history (hasXq hasClass : Bool) (hdep : hasClass = true → hasXq = 
 /-- a reload changes neither the requests nor the set of loaded modules -/
 theorem C03_reload (need : Flags) (s : State) (h : Settled need s) (live new : Config) (first : Bool) :
     Settled need (applyConfig s live new first).1 := by
-  have e : (applyConfig s live new first).1.reqs = s.reqs := by
-    unfold applyConfig
-    dsimp only
-    split <;> split <;> simp [servicesChanged, classChanged]
+  have e : (applyConfig s live new first).1.reqs = s.reqs := applyConfig_reqs' s live new first
   intro r hr; rw [e] at hr; exact h r hr
 
 /-- non-vacuity: the condition is satisfiable (such a request is what the gate accepts), so the
